@@ -38,6 +38,7 @@ pub struct RunStats {
     pub atomic_ops_seen: u64,
     pub futex_waits_as_yield: u64,
     pub futex_timeouts_fired: u64,
+    pub spin_relief_yields: u64,
     pub futex_wakes: u64,
     pub futex_spurious_wakeups: u64,
     pub edges_seen: u64,
@@ -183,7 +184,18 @@ pub fn atomic_point() {
         n
     });
     let k = ATOMIC_THIN.with(|t| t.get());
-    if k == 0 || n % k as u64 != 0 {
+    if k == 0 {
+        // Spin relief: even when atomic operations are not scheduling points in this run, a task that executes
+        // thousands of them in a row (a spin-wait on a flag another task has to set) must not starve the single
+        // OS thread of the simulation: every 4096th one YIELDS (all strategies are fair on yield).
+        #[cfg(not(feature = "native"))]
+        if n % SPIN_RELIEF_EVERY == 0 && may_switch() {
+            STATS.with(|s| s.borrow_mut().spin_relief_yields += 1);
+            shuttle::thread::yield_now();
+        }
+        return;
+    }
+    if n % k as u64 != 0 {
         return;
     }
     #[cfg(not(feature = "native"))]
@@ -192,7 +204,13 @@ pub fn atomic_point() {
             return;
         }
         STATS.with(|s| s.borrow_mut().sched_points_atomic += 1);
-        shuttle::thread::sleep(std::time::Duration::ZERO);
+        // a long run of atomic operations by one task is a spin-wait: yield (fair) now and then instead of the
+        // plain switch opportunity, so that a "stay on the current task" strategy cannot spin for ever
+        if n % SPIN_RELIEF_EVERY == 0 {
+            shuttle::thread::yield_now();
+        } else {
+            shuttle::thread::sleep(std::time::Duration::ZERO);
+        }
     }
 }
 
@@ -700,6 +718,8 @@ pub const RUN_STACK: usize = 64 << 20;
 pub const STUCK_POLLS: u32 = 12;
 /// at most this many edge scheduling points per run (deterministic bound on the cost of a run)
 pub const EDGE_SWITCH_BUDGET: u64 = 1_500_000;
+/// every this many atomic operations of a run, the scheduling point is a YIELD (see atomic_point)
+pub const SPIN_RELIEF_EVERY: u64 = 4096;
 
 // A stuck run leaves its threads behind, and one of them still HOLDS the lock it was preempted in.  If that lock
 // is process-wide (a `static Mutex` in the code under test) every later run in this process would park on it too:
@@ -919,6 +939,7 @@ mod simexec {
     stats.atomic_ops_seen = tl_stats.atomic_ops_seen;
     stats.futex_waits_as_yield = tl_stats.futex_waits_as_yield;
     stats.futex_timeouts_fired = tl_stats.futex_timeouts_fired;
+    stats.spin_relief_yields = tl_stats.spin_relief_yields;
     stats.futex_wakes = tl_stats.futex_wakes;
     stats.futex_spurious_wakeups = tl_stats.futex_spurious_wakeups;
     stats.edges_seen = tl_stats.edges_seen;
